@@ -191,6 +191,17 @@ def run_property(prop_id: str, mod, tier: str, seed: int, explain: Optional[str]
         _write_evidence(prop_id, mod, tier, seed, ctx, program, time.time() - t0, error="engine exception")
         return 2
 
+    if tier == "thorough" and not explain and not os.environ.get("INDILINT_NO_SELFTEST"):
+        # report-only: kill matrix of the self-test corpus for this property's rules (never changes the verdict)
+        try:
+            from .selftest.run import run_for_property
+            ctx.selftest = run_for_property(prop_id)
+            out(f"  selftest (report-only): {ctx.selftest['summary']} over {ctx.selftest['variants']} variants in {ctx.selftest['wall_s']} s")
+            for r in ctx.selftest["results"]:
+                if r["status"] in ("survived", "FALSE-ALARM", "harness-error"):
+                    out(f"    selftest {r['status']}: {r['id']}")
+        except Exception as e:  # the self-test must never break a check
+            ctx.selftest = {"error": repr(e)}
     known = load_known()
     os.makedirs(REPLAY_DIR, exist_ok=True)
     for fn_ in os.listdir(REPLAY_DIR):
@@ -278,6 +289,10 @@ def _write_evidence(prop_id, mod, tier, seed, ctx, program, wall, nviol=0, error
         "exhaustive_domains": ctx.exhaustive_domains if ctx else [],
         "notes": ctx.notes if ctx else [],
     }
+    if ctx is not None and getattr(ctx, "selftest", None):
+        st = ctx.selftest
+        cov["selftest_report_only"] = {k: st.get(k) for k in ("variants", "summary", "wall_s", "error") if k in st}
+        cov["selftest_results"] = [{"id": r["id"], "kind": r["kind"], "status": r["status"], "rule": r.get("rule")} for r in st.get("results", [])]
     ev = {
         "property_id": prop_id,
         "tier": tier,
